@@ -21,6 +21,7 @@ import (
 	"strconv"
 	"strings"
 	"sync"
+	"sync/atomic"
 	"testing"
 	"time"
 
@@ -98,6 +99,10 @@ type c06Art struct {
 	Attr   [6]int `json:"attr"`
 	Dev    string `json:"dev,omitempty"`
 	Seq    []string `json:"seq,omitempty"` // request part: k0,v0,k1,v1,... quoted
+	Ops       []int `json:"ops,omitempty"` // reuse part: indices into c06Ops()
+	Mask      int   `json:"mask,omitempty"`
+	Start     int   `json:"start,omitempty"`
+	ViaString bool  `json:"via_string,omitempty"`
 }
 
 func (c c06Case) art() c06Art {
@@ -215,22 +220,37 @@ func c06Compare(want, got c06Snap, clean bool, cs c06Case) []string {
 var c06RPool = sync.Pool{New: func() any { return bufio.NewReaderSize(nil, 4096) }}
 
 func c06CheckResp(r *vrt.R, cs c06Case, hdrTrip bool, st *c06Stats) {
-	st.cases++
 	clean := c06IsKeyOctets(cs.Key) && c06IsValOctets(cs.Value) && cs.Dev == "clean"
+	c06JudgeCookie(r, c06Build(cs), cs, clean, hdrTrip, st, nil)
+}
+
+// c06JudgeCookie serialises c as it is now and checks the serialisation against what c's getters report now.
+// hist is non-nil for the object-reuse histories (part c): it replaces the description and the artefact.
+func c06JudgeCookie(r *vrt.R, c *Cookie, cs c06Case, clean, hdrTrip bool, st *c06Stats, hist *c06Hist) {
+	st.cases++
 	if clean {
 		st.clean++
 	}
-	c := c06Build(cs)
 	want := c06SnapOf(c)
-	wire := append([]byte(nil), c.AppendBytes(nil)...)
-	if want.key != cs.Key || want.value != cs.Value || want.domain != cs.Domain {
-		st.neutralised++
-		r.Nontrivial("resp\x00" + cs.Dev + "\x00" + cs.Key + "\x00" + cs.Value + "\x00" + cs.Domain + "\x00" + cs.Path)
-	} else if clean {
-		r.Nontrivial("resp\x00" + cs.Dev + "\x00" + cs.Key + "\x00" + cs.Value + "\x00" + cs.Domain + "\x00" + cs.Path)
+	var wire []byte
+	if hist != nil && hist.viaString {
+		wire = []byte(c.String())
+	} else {
+		wire = append([]byte(nil), c.AppendBytes(nil)...)
+	}
+	if hist == nil {
+		if want.key != cs.Key || want.value != cs.Value || want.domain != cs.Domain {
+			st.neutralised++
+			r.Nontrivial("resp\x00" + cs.Dev + "\x00" + cs.Key + "\x00" + cs.Value + "\x00" + cs.Domain + "\x00" + cs.Path)
+		} else if clean {
+			r.Nontrivial("resp\x00" + cs.Dev + "\x00" + cs.Key + "\x00" + cs.Value + "\x00" + cs.Domain + "\x00" + cs.Path)
+		}
 	}
 	viol := func(shape string, whatf func() string) {
 		sig := "resp-cookie/" + shape
+		if hist != nil {
+			sig = "resp-cookie/reuse:" + shape
+		}
 		if !strings.Contains(shape, "maxage-") && !strings.Contains(shape, "expires-") {
 			sig += "/dev=" + cs.Dev // which argument carried the enumerated string matters for smuggling shapes only
 		}
@@ -243,6 +263,11 @@ func c06CheckResp(r *vrt.R, cs c06Case, hdrTrip bool, st *c06Stats) {
 		}
 		st.sigs[sig] = true
 		what := whatf()
+		if hist != nil {
+			r.Violation(sig, fmt.Sprintf("one Cookie object (%s) after the steps [%s] serialises to %s while its getters report %+v: %s",
+				c06Starts[hist.start], hist.describe(), strconv.QuoteToASCII(string(wire)), want, what), hist.art())
+			return
+		}
 		r.Violation(sig, fmt.Sprintf("Cookie{key=%s value=%s domain=%s path=%s attrs(exp,maxage,secure,httponly,samesite,partitioned)=%v} serialises to %s: %s",
 			strconv.QuoteToASCII(cs.Key), strconv.QuoteToASCII(cs.Value), strconv.QuoteToASCII(cs.Domain), strconv.QuoteToASCII(cs.Path), cs.Attr, strconv.QuoteToASCII(string(wire)), what), cs.art())
 	}
@@ -384,6 +409,130 @@ func c06AttrList(maxDev int) [][6]int {
 		return true
 	})
 	return out
+}
+
+// ------------------------------------------------------------------------------------------------ (c) object reuse
+
+// A history is a sequence of steps applied to ONE Cookie object; after the steps selected by mask (and always after
+// the last one) the object is serialised and judged against its own getters at that moment.
+type c06Op struct {
+	name string
+	f    func(c *Cookie)
+}
+
+var (
+	c06ExpA = time.Unix(1, 0).UTC()
+	c06ExpB = time.Date(9999, 12, 31, 23, 59, 59, 0, time.UTC)
+	// other cookies used as ParseBytes input and CopyTo source
+	c06Others = []string{
+		"o=1; expires=Thu, 01 Jan 1970 00:00:01 GMT; domain=a.example",
+		"o=2; expires=Fri, 31 Dec 9999 23:59:59 GMT; HttpOnly; secure",
+		"o=3; max-age=5; path=/q",
+		"o=4",
+	}
+	c06Starts = []string{"fresh", "used with expiry A, serialised, Reset", "AcquireCookie after a released cookie that had expiry A and was serialised"}
+)
+
+func c06Ops() []c06Op {
+	ops := []c06Op{
+		{"SetKey(k2);SetValue(v2)", func(c *Cookie) { c.SetKey("k2"); c.SetValue("v2") }},
+		{"SetExpire(A)", func(c *Cookie) { c.SetExpire(c06ExpA) }},
+		{"SetExpire(B)", func(c *Cookie) { c.SetExpire(c06ExpB) }},
+		{"SetExpire(CookieExpireUnlimited)", func(c *Cookie) { c.SetExpire(CookieExpireUnlimited) }},
+		{"SetExpire(CookieExpireDelete)", func(c *Cookie) { c.SetExpire(CookieExpireDelete) }},
+		{"SetMaxAge(5)", func(c *Cookie) { c.SetMaxAge(5) }},
+		{"SetMaxAge(0)", func(c *Cookie) { c.SetMaxAge(0) }},
+		{"SetMaxAge(-1)", func(c *Cookie) { c.SetMaxAge(-1) }},
+		{"SetDomain(example.com)", func(c *Cookie) { c.SetDomain("example.com") }},
+		{"SetPath(/p)", func(c *Cookie) { c.SetPath("/p") }},
+		{"SetSecure(true)", func(c *Cookie) { c.SetSecure(true) }},
+		{"SetSecure(false)", func(c *Cookie) { c.SetSecure(false) }},
+		{"SetHTTPOnly(true)", func(c *Cookie) { c.SetHTTPOnly(true) }},
+		{"SetSameSite(Lax)", func(c *Cookie) { c.SetSameSite(CookieSameSiteLaxMode) }},
+		{"SetSameSite(Disabled)", func(c *Cookie) { c.SetSameSite(CookieSameSiteDisabled) }},
+		{"SetPartitioned(true)", func(c *Cookie) { c.SetPartitioned(true) }},
+		{"SetPartitioned(false)", func(c *Cookie) { c.SetPartitioned(false) }},
+		{"Reset", func(c *Cookie) { c.Reset() }},
+	}
+	for _, o := range c06Others {
+		o := o
+		ops = append(ops,
+			c06Op{"ParseBytes(" + strconv.Quote(o) + ")", func(c *Cookie) { _ = c.ParseBytes([]byte(o)) }},
+			c06Op{"Parse(" + strconv.Quote(o) + ")", func(c *Cookie) { _ = c.Parse(o) }},
+			c06Op{"CopyTo(from cookie parsed from " + strconv.Quote(o) + ")", func(c *Cookie) {
+				var src Cookie
+				_ = src.ParseBytes([]byte(o))
+				c.CopyTo(&src)
+			}},
+			c06Op{"CopyTo(from serialised cookie " + strconv.Quote(o) + ")", func(c *Cookie) {
+				var src Cookie
+				_ = src.ParseBytes([]byte(o))
+				_ = src.AppendBytes(nil) // the source has been serialised itself
+				c.CopyTo(&src)
+			}})
+	}
+	return ops
+}
+
+type c06Hist struct {
+	ops       []c06Op
+	seq       []int
+	mask      int // bit i: serialise and judge after step i (the last step is always judged)
+	start     int
+	viaString bool
+	upto      int
+}
+
+func (h *c06Hist) describe() string {
+	var parts []string
+	for i := 0; i <= h.upto; i++ {
+		p := h.ops[h.seq[i]].name
+		if i < h.upto && h.mask&(1<<i) != 0 {
+			p += " -> serialise"
+		}
+		parts = append(parts, p)
+	}
+	return strings.Join(parts, "; ")
+}
+
+func (h *c06Hist) art() c06Art {
+	return c06Art{Part: "reuse", Ops: append([]int(nil), h.seq...), Mask: h.mask, Start: h.start, ViaString: h.viaString}
+}
+
+func c06RunHistory(r *vrt.R, ops []c06Op, seq []int, mask, start int, viaString bool, st *c06Stats) {
+	var c *Cookie
+	switch start {
+	case 0:
+		c = &Cookie{}
+	case 1:
+		c = &Cookie{}
+		c.SetKey("old")
+		c.SetValue("life")
+		c.SetExpire(c06ExpA)
+		_ = c.AppendBytes(nil)
+		c.Reset()
+	default:
+		p := AcquireCookie()
+		p.SetKey("old")
+		p.SetValue("life")
+		p.SetExpire(c06ExpA)
+		_ = p.AppendBytes(nil)
+		ReleaseCookie(p)
+		c = AcquireCookie()
+		defer ReleaseCookie(c)
+	}
+	c.SetKey("k")
+	c.SetValue("v")
+	h := &c06Hist{ops: ops, seq: seq, mask: mask, start: start, viaString: viaString}
+	for i, o := range seq {
+		ops[o].f(c)
+		if i == len(seq)-1 || mask&(1<<i) != 0 {
+			h.upto = i
+			w := c06SnapOf(c)
+			c06JudgeCookie(r, c, c06Case{Key: w.key, Value: w.value, Domain: w.domain, Path: w.path, Dev: "reuse"},
+				c06IsKeyOctets(w.key) && c06IsValOctets(w.value), false, st, h)
+		}
+	}
 }
 
 // ------------------------------------------------------------------------------------------------ (b) request cookies
@@ -550,7 +699,10 @@ func TestVerif_C06(t *testing.T) {
 			}
 			return u
 		}
-		if a.Part == "request" {
+		if a.Part == "reuse" {
+			var st c06Stats
+			c06RunHistory(r, c06Ops(), a.Ops, a.Mask, a.Start, a.ViaString, &st)
+		} else if a.Part == "request" {
 			var seq []c06KV
 			for i := 0; i+1 < len(a.Seq); i += 2 {
 				seq = append(seq, c06KV{uq(a.Seq[i]), uq(a.Seq[i+1])})
@@ -582,10 +734,13 @@ func TestVerif_C06(t *testing.T) {
 		"cookie-octet keys (<=2 token symbols) x values (<=2) x domain {none, example.com} x path {none, /p/q} x %d combinations and %d key(s) x values <=%d x the same x all combinations. "+
 		"Oracle: the Set-Cookie string has exactly one ';'-separated segment per attribute set; Cookie.ParseBytes of it, ResponseHeader.SetCookie->Write->Read->VisitAllCookie/Cookie, and net/http.ParseSetCookie report no attribute that was not set "+
 		"and every flag/max-age/expiry that was; cookie-octet inputs come back byte-exact (expiry to the second). "+
+		"(c) object reuse: on ONE Cookie object (fresh / previously used and Reset / from AcquireCookie after a released used cookie) every sequence of <=%d steps over %d operations "+
+		"(setters incl. SetExpire A/B/unlimited/delete, SetMaxAge, ParseBytes/Parse of 4 other cookies, CopyTo from parsed or already-serialised cookies, Reset) with every choice of intermediate serialisations (AppendBytes or String); "+
+		"after each serialisation the same oracle against the object's getters at that moment. "+
 		"(b) request cookies: SetCookie sequences: 1 call with key <=3, value <=%d adversarial symbols; 2 calls (key<=1,value<=%d then key<=1,value<=2); 3 calls (<=1,<=1); and <=3 calls over cookie-octet keys/values; "+
 		"RequestHeader.Write->Read->VisitAllCookie/Cookies() and net/http Request.Cookies() never see more cookies than distinct keys set, octet inputs are seen exactly. "+
 		"Non-trivial: (a) a setter had to neutralise its argument or the case is a cookie-octet round trip; (b) an argument contains a delimiter (; = SP \" , \\ CR LF) or the case is an octet round trip.",
-		advLen, len(c06Words)*3, len(allAttrs), len(pairAttrs), len(oneAttr), vrt.Pick(r, 1, 3), vrt.Pick(r, 2, 4), advLen, vrt.Pick(r, 2, 3)))
+		advLen, len(c06Words)*3, len(allAttrs), len(pairAttrs), len(oneAttr), vrt.Pick(r, 1, 3), vrt.Pick(r, 2, 4), vrt.Pick(r, 3, 4), len(c06Ops()), advLen, vrt.Pick(r, 2, 3)))
 	r.Assume("RFC 6265: cookie-name is a token, so '=' and the other separators (cookie-octets, but not token characters) and the empty name are outside the byte-exact round-trip claim for keys",
 		"when max-age is set the Expires attribute is deliberately not serialised (documented on Cookie.SetMaxAge); expiry is compared only when max-age is unset, and must be absent otherwise",
 		"the 'attributes that were set' are read from the Cookie getters after all setters ran (SetSameSite(None) and SetPartitioned(true) switch Secure/Path on by design)",
@@ -694,6 +849,25 @@ func TestVerif_C06(t *testing.T) {
 			})
 		}
 	}
+	// ---- (c) object-reuse histories
+	ops := c06Ops()
+	histLen := vrt.Pick(r, 3, 4)
+	var nHist atomic.Int64
+	for first := range ops {
+		first := first
+		jobs = append(jobs, func(st *c06Stats) {
+			seqx.Sequences(len(ops), histLen-1, func(tail []int) bool {
+				seq := append([]int{first}, tail...)
+				for mask := 0; mask < 1<<(len(seq)-1); mask++ {
+					for start := range c06Starts {
+						c06RunHistory(r, ops, seq, mask, start, mask&1 == 1 && start == 0, st)
+						nHist.Add(1)
+					}
+				}
+				return true
+			})
+		})
+	}
 	var mu sync.Mutex
 	var tot c06Stats
 	r.Par(len(jobs), func(i int) {
@@ -708,6 +882,8 @@ func TestVerif_C06(t *testing.T) {
 		tot.add(&st)
 		mu.Unlock()
 	})
+	r.Add("reuse_histories", nHist.Load())
+	r.Set("reuse_ops", len(ops))
 	r.Add("resp_cases", tot.cases)
 	r.Add("resp_setter_neutralised_an_argument", tot.neutralised)
 	r.Add("resp_cookie_octet_roundtrips", tot.clean)
